@@ -117,3 +117,111 @@ def walk(dot, adapter, max_groups=None, stop_after=40, skip_label=None):
                 path[match] = path[u] + [(label, match)]
                 order.append(match)
     return res
+
+
+def tour(dot, adapter, max_steps_per_run=80, max_total=None, stop_after=30, skip_label=None, on_progress=None):
+    """Edge-covering tours: like walk(), but the real object is not re-created for every (state, label)
+    group.  A run starts at Init with a fresh real object and keeps going: at each state it takes an
+    uncovered label if there is one, otherwise it follows edges the implementation is already known to
+    take towards the nearest state with an uncovered label.  Runs are repeated until every (state,
+    label) group of the implementation-reachable sub-graph has been exercised."""
+    nodes, edges, init = parse_dot(dot)
+    res = WalkResult()
+    res.graph_states = len(nodes)
+    res.graph_edges = sum(len(v) for e in edges.values() for v in e.values())
+    covered = set()
+    bad = set()                 # (state, label) groups that ended in a mismatch: never used as a path
+    real_next = {}              # (state, label) -> successor the implementation takes
+    reached = {init}
+    total = 0
+
+    def labels_of(u):
+        return [l for l in sorted(edges[u]) if not (skip_label and skip_label(l))]
+
+    def uncovered(u):
+        return [l for l in labels_of(u) if (u, l) not in covered]
+
+    def path_to_uncovered(u):
+        """BFS over real_next from u to a state that has an uncovered label"""
+        prev = {u: None}
+        dq = collections.deque([u])
+        while dq:
+            x = dq.popleft()
+            if x != u and uncovered(x):
+                path = []
+                while prev[x] is not None:
+                    px, l = prev[x]
+                    path.append(l)
+                    x = px
+                return path[::-1]
+            for l in labels_of(x):
+                v = real_next.get((x, l))
+                if v is not None and v not in prev:
+                    prev[v] = (x, l)
+                    dq.append(v)
+        return None
+
+    while True:
+        if not uncovered(init) and path_to_uncovered(init) is None:
+            break
+        h = adapter.fresh()
+        u = init
+        hist = []
+        plan = []
+        steps = 0
+        while steps < max_steps_per_run:
+            if max_total and total >= max_total:
+                res.states = len(reached)
+                return res
+            if not plan:
+                unc = uncovered(u)
+                if unc:
+                    plan = [unc[0]]
+                else:
+                    p = path_to_uncovered(u)
+                    if p is None:
+                        break
+                    plan = p
+            label = plan.pop(0)
+            op, args = parse_label(label)
+            first_time = (u, label) not in covered
+            try:
+                adapter.apply(h, op, args, nodes[u])
+                proj = adapter.project(h)
+                exc = None
+            except BaseException as e:
+                proj, exc = None, e
+            steps += 1
+            total += 1
+            covered.add((u, label))
+            if first_time:
+                res.groups += 1
+            if exc is not None:
+                verdict = adapter.judge_exception(exc, nodes[u], op, args)
+                if verdict:
+                    res.mismatches.append((list(hist), label, "violation", verdict))
+                else:
+                    res.nonprop += 1
+                bad.add((u, label))
+                break
+            match = next((v for v in edges[u][label] if adapter.same(nodes[v], proj)), None)
+            if match is None:
+                verdict = adapter.judge(h, proj, nodes[u], op, args, [nodes[v] for v in edges[u][label]])
+                if verdict:
+                    res.mismatches.append((list(hist), label, "violation", verdict))
+                else:
+                    res.nonprop += 1
+                bad.add((u, label))
+                break
+            real_next[(u, label)] = match
+            reached.add(match)
+            hist.append(label)
+            u = match
+        if hasattr(adapter, "dispose"):
+            adapter.dispose(h)
+        if len([m for m in res.mismatches if m[2] == "violation"]) >= stop_after:
+            break
+        if on_progress:
+            on_progress(len(covered), total)
+    res.states = len(reached)
+    return res
